@@ -11,7 +11,16 @@ Inductive obs :=
 | OPanic
 | OOther.
 
+(* one declared parameter of a multi-parameter case: its declaration, its oracle tables, the verdict of its
+   validator, and the value the handler received under its name (None: handler did not run / not expressible) *)
+Inductive mparam :=
+| MP (d : decl) (regs : list bytes) (fmts : list (bytes * bytes * option bytes))
+     (floats : list (bytes * option (Z * bool * Z))) (valid : option nat) (got : option gval).
+
 Inductive case :=
+| CMulti (ps : list mparam) (rq : request)   (* one operation declaring ps, one request *)
+         (ran panicked : bool) (status : nat)
+         (named : list bytes)                (* the declared names that the error returned by Bind names *)
 | CBind (d : decl) (rq : request)
         (regs : list bytes)                              (* registered formats among those the declaration uses *)
         (fmts : list (bytes * bytes * option bytes))     (* (format, text) -> UnmarshalText rendering, None = error *)
@@ -65,8 +74,36 @@ Definition outcome_matches (m : outcome) (ran : bool) (o : obs) : bool :=
 
 Definition z_range64 (z : Z) : bool := in_int_range 64 z.
 
+(* Multi-parameter requests. judge p = the single-parameter outcome of p for this request (with p's own oracle
+   tables). All accepted: the handler runs (200) and receives every value; otherwise 422, the handler does not
+   run and the names named by the composite error are exactly those of the parameters rejected one by one. *)
+Definition mp_decl (p : mparam) : decl := match p with MP d _ _ _ _ _ => d end.
+Definition mp_valid (p : mparam) : option nat := match p with MP _ _ _ _ v _ => v end.
+Definition mp_got (p : mparam) : option gval := match p with MP _ _ _ _ _ g => g end.
+Definition mp_oracles (p : mparam) : oracles := match p with MP _ regs fmts floats _ _ => mk_oracles regs fmts floats end.
+Definition mp_complete (rq : request) (p : mparam) : bool :=
+  match p with MP d regs fmts floats _ _ => oracle_complete (mk_oracles regs fmts floats) d rq fmts floats end.
+
+Definition multi_expect (judge : mparam -> outcome) (ps : list mparam) (ran panicked : bool) (status : nat)
+           (named : list bytes) : bool :=
+  let js := map (fun p => (p, judge p)) ps in
+  negb panicked &&
+  forallb (fun pj => match snd pj with Bound _ | R422 _ _ => true | _ => false end) js &&
+  match map (fun pj => d_name (mp_decl (fst pj))) (filter (fun pj => rejected (snd pj)) js) with
+  | [] => ran && Nat.eqb status 200 && is_nil named &&
+          forallb (fun pj => match snd pj, mp_got (fst pj) with
+                             | Bound v, Some v' => gval_eqb v v'
+                             | _, _ => false
+                             end) js
+  | rej => negb ran && Nat.eqb status 422 && same_names rej named
+  end.
+
 Definition check_case (c : case) : N :=
   match c with
+  | CMulti ps rq ran panicked status named =>
+    let pre := request_wf rq && forallb (mp_complete rq) ps in
+    verdict (pre && multi_expect (fun p => bind_param (mp_oracles p) (mp_decl p) rq (mp_valid p)) ps ran panicked status named)
+            (multi_expect (fun p => spec_outcome (mp_oracles p) (mp_decl p) rq (mp_valid p)) ps ran panicked status named)
   | CBind d rq regs fmts floats valid ran o =>
     let O := mk_oracles regs fmts floats in
     let pre := request_wf rq && oracle_complete O d rq fmts floats in
